@@ -46,6 +46,7 @@ func VariantByName(n string) Variant {
 type Probe struct {
 	TTL    int
 	SentAt time.Time
+	Tick   int64 // logical clock of the wire at emission
 	IPID   uint16
 	Seq    uint32 // tcp sequence / echo sequence
 	PLen   uint16 // ipv6 payload length (udp6 identifier)
@@ -176,27 +177,27 @@ func parseIP(b []byte, outer bool) (ipView, bool) {
 	return v, false
 }
 
-func (f *Flow) sent(ttl int, at time.Time) *Probe {
+func (f *Flow) sent(ttl int, at int64) *Probe {
 	for _, p := range f.Probes {
-		if p.TTL == ttl && p.SentAt.Before(at) {
+		if p.TTL == ttl && p.Tick < at {
 			return p
 		}
 	}
 	return nil
 }
 
-func (f *Flow) lastSent(at time.Time) *Probe {
+func (f *Flow) lastSent(at int64) *Probe {
 	var last *Probe
 	for _, p := range f.Probes {
-		if p.SentAt.Before(at) {
+		if p.Tick < at {
 			last = p
 		}
 	}
 	return last
 }
 
-// Ref classifies frame b as delivered to flow f at instant `at` (probes sent strictly before `at` count as sent).
-func Ref(f *Flow, b []byte, at time.Time) Outcome {
+// Ref classifies frame b as processed by flow f at logical instant `at` (probes emitted at a smaller tick count as sent).
+func Ref(f *Flow, b []byte, at int64) Outcome {
 	ip, ok := parseIP(b, true)
 	if !ok {
 		return rej("no parsable IP header")
@@ -216,7 +217,7 @@ func Ref(f *Flow, b []byte, at time.Time) Outcome {
 	return o
 }
 
-func refInner(f *Flow, ip ipView, at time.Time) Outcome {
+func refInner(f *Flow, ip ipView, at int64) Outcome {
 	icmpProto := uint8(1)
 	teType, duType, erType, eqType := uint8(11), uint8(3), uint8(0), uint8(8)
 	if f.V.V6 {
@@ -298,7 +299,7 @@ func refInner(f *Flow, ip ipView, at time.Time) Outcome {
 					return Outcome{Kind: Accept, TTL: last.TTL, Dest: true, OrLater: !f.V.Paris, Why: "syn-ack/rst-ack for most recent probe"}
 				}
 				for _, p := range f.Probes {
-					if p.SentAt.Before(at) && p.Seq == want {
+					if p.Tick < at && p.Seq == want {
 						return Outcome{Kind: Maybe, TTL: p.TTL, Dest: true, Why: "ack for an earlier probe"}
 					}
 				}
@@ -365,7 +366,7 @@ func (o Outcome) demote() Outcome {
 }
 
 // refQuote evaluates an ICMP error quoting a datagram.
-func refQuote(f *Flow, ip ipView, body []byte, at time.Time, eqType uint8) Outcome {
+func refQuote(f *Flow, ip ipView, body []byte, at int64, eqType uint8) Outcome {
 	q, ok := parseIP(body, false)
 	if !ok || q.v6 != f.V.V6 {
 		return rej("no parsable quoted header")
@@ -423,7 +424,7 @@ func refQuote(f *Flow, ip ipView, body []byte, at time.Time, eqType uint8) Outco
 		}
 		var hit *Probe
 		for _, p := range f.Probes {
-			if !p.SentAt.Before(at) {
+			if p.Tick >= at {
 				continue
 			}
 			if (!f.V.V6 && p.IPID == q.id) || (f.V.V6 && p.PLen == q.plen) {
@@ -456,7 +457,7 @@ func refQuote(f *Flow, ip ipView, body []byte, at time.Time, eqType uint8) Outco
 		if f.V.Proto == "syn" {
 			var hit *Probe
 			for _, p := range f.Probes {
-				if p.SentAt.Before(at) && p.IPID == q.id && p.Seq == seq {
+				if p.Tick < at && p.IPID == q.id && p.Seq == seq {
 					hit = p
 				}
 			}
